@@ -25,7 +25,7 @@ pub fn check_api(text: &str, ordering: &Ordering) -> Check {
     guarded(&cj.clone(), || {
         let run = |o: Option<Vec<rsbdd::NamedSymbol>>| match front::run_text(text.as_bytes(), o, Some(limit)) {
             Run::Ok(r, pf) => Ok((r, pf)),
-            Run::ParseErr(e) => Err(v(format!("well-formed formula rejected: {}", e))),
+            Run::ParseErr(e) => Err(front::rejection(text, "well-formed formula", &e, &cj)),
             Run::ParsePanic(p) => Err(v(format!("parser panicked: {}", p))),
             Run::EvalPanic(p, _) => Err(v(format!("evaluation panicked: {}", p))),
         };
